@@ -253,7 +253,7 @@ func c11Teardown() {
 	if c11IsWorker() {
 		return
 	}
-	c11KillWorker()
+	c11KillWorkers()
 	if c11Tmp != "" {
 		os.RemoveAll(c11Tmp)
 	}
@@ -264,7 +264,10 @@ type c11res struct {
 	pan interface{}
 }
 
+var c11Loads int // loads since the case began (worker process)
+
 func c11RunMode(body []byte, validate bool) (string, string) {
+	c11Loads++
 	ch := make(chan c11res, 1)
 	go func() {
 		defer func() {
@@ -313,12 +316,18 @@ func c11InWorker(eval func([]string) (string, []string), f []string) (out string
 		return c11WorkerAnswer("pong", nil), nil
 	}
 	before := runtime.NumGoroutine()
+	c11Loads = 0
 	defer func() {
 		if r := recover(); r != nil { // a panic of the harness' own code
 			out, tags = "PANIC:harness:"+strings.SplitN(fmt.Sprint(r), "\n", 2)[0], []string{"dir=" + f[0]}
 		}
 		c11Settle(before)
-		tags = append(tags, fmt.Sprintf("grew=%d", runtime.NumGoroutine()-before)) // for the parent, see c11AskSettled
+		// for the parent (askSettled): goroutines left behind per load, rounded up
+		grew, loads := runtime.NumGoroutine()-before, c11Loads
+		if loads > 1 && grew > 0 {
+			grew = (grew + loads - 1) / loads
+		}
+		tags = append(tags, fmt.Sprintf("grew=%d", grew))
 		out, tags = c11WorkerAnswer(out, tags), nil
 	}()
 	return eval(f)
@@ -722,19 +731,20 @@ func c11SetupGen(g *hx.Gen) {
 	sort.Strings(dirs)
 	r := g.Rng
 	all := append(append([]string{}, c11Core...), c11More...)
-	c11SiteCases(repo, func(d, cfg string) {
-		if c11KeysOK(cfg) {
-			g.Case(d, hx.HS(cfg))
+	// every configuration once; its number fixes which worker process evaluates it and when (c11iso.go)
+	count := 0
+	gcase := func(d, cfg string) {
+		h := hx.HS(cfg)
+		if c11KeysOK(cfg) && c11Ordered("c11.setup\t"+d+"\t"+h, count) {
+			count++
+			g.Case(d, h)
 		}
-	})
+	}
+	c11SiteCases(repo, gcase)
 	for _, d := range dirs {
 		own, helper := c11Vocab(repo, c11Pkg[d])
 		vocab := append(append([]string{}, own...), helper...)
-		emit := func(cfg string) {
-			if c11KeysOK(cfg) {
-				g.Case(d, hx.HS(cfg))
-			}
-		}
+		emit := func(cfg string) { gcase(d, cfg) }
 		argsets := [][]string{{}}
 		// exhaustive: 0..2 arguments over the core classes and the directive's own keywords
 		cls := append(append([]string{}, c11Core...), vocab...)
@@ -886,5 +896,6 @@ func c11SetupGen(g *hx.Gen) {
 
 func init() {
 	hx.Register(&hx.Stream{ID: "C11", Name: "c11.disp", Gen: c11DispGen, Eval: c11DispEval})
-	hx.Register(&hx.Stream{ID: "C11", Name: "c11.setup", Gen: c11SetupGen, Eval: c11SetupEval, Serial: true, Setup: c11Setup, Teardown: c11Teardown})
+	// c11.setup is not Serial: its cases run in c11Slots worker processes, in an order the generator fixes
+	hx.Register(&hx.Stream{ID: "C11", Name: "c11.setup", Gen: c11SetupGen, Eval: c11SetupEval, Setup: c11Setup, Teardown: c11Teardown})
 }
